@@ -42,6 +42,17 @@ type Embedded struct {
 	EmbBytes []byte `setec:"emb-bytes"`
 	EmbStr   string `setec:"emb-str"`
 	EmbPlain int
+	Deeper   // promoted from two and three levels down: as visible as any other field
+}
+
+type Deeper struct {
+	DeepStr string `setec:"deep-str"`
+	Deepest
+}
+
+type Deepest struct {
+	DeepestBytes []byte `setec:"deepest-bytes"`
+	DeepestPlain int
 }
 
 type FieldSpec struct {
@@ -130,9 +141,10 @@ func runC20(t *testing.T, c StructCase) (v *h.Violation, info h.Info) {
 			}
 			hasEmb = true
 			fld.Name, fld.Anonymous = "Embedded", true
-			wantNames = append(wantNames, full("emb-bytes"), full("emb-str"))
+			wantNames = append(wantNames, full("emb-bytes"), full("emb-str"), full("deep-str"), full("deepest-bytes"))
 			served[full("emb-bytes")], served[full("emb-str")] = []byte("EB:"+string(f.Val)), []byte("ES:"+string(f.Val))
-			tagged += 2
+			served[full("deep-str")], served[full("deepest-bytes")] = []byte("DS:"+string(f.Val)), []byte("DB:"+string(f.Val))
+			tagged += 4
 		case f.Kind == "empty-tag":
 			fld.Tag = `setec:""`
 			anyBad = true
@@ -219,6 +231,7 @@ func runC20(t *testing.T, c StructCase) (v *h.Violation, info h.Info) {
 				sv.Elem().Field(i).SetString("sentinel")
 			case ft.Anonymous:
 				sv.Elem().Field(i).FieldByName("EmbPlain").SetInt(777)
+				sv.Elem().Field(i).FieldByName("DeepestPlain").SetInt(888)
 			}
 		}
 	}
@@ -452,8 +465,11 @@ func runC20(t *testing.T, c StructCase) (v *h.Violation, info h.Info) {
 			if !bytes.Equal(e.EmbBytes, served[full("emb-bytes")]) || e.EmbStr != string(served[full("emb-str")]) {
 				return bad("embedded fields hold %q,%q", e.EmbBytes, e.EmbStr)
 			}
-			if e.EmbPlain != 777 {
-				return h.V("untagged-fields-untouched", "untagged field of the embedded struct now holds %d", e.EmbPlain), info
+			if e.DeepStr != string(served[full("deep-str")]) || !bytes.Equal(e.DeepestBytes, served[full("deepest-bytes")]) {
+				return bad("fields promoted from two and three levels down hold %q,%q", e.DeepStr, e.DeepestBytes)
+			}
+			if e.EmbPlain != 777 || e.DeepestPlain != 888 {
+				return h.V("untagged-fields-untouched", "untagged fields of the embedded structs now hold %d, %d", e.EmbPlain, e.DeepestPlain), info
 			}
 		}
 	}
@@ -641,6 +657,10 @@ func genStructCase(rt *rapid.T) StructCase {
 		}
 		f := FieldSpec{Kind: rapid.SampledFrom(pool).Draw(rt, "kind")}
 		f.Tag = rapid.SampledFrom(c20Tags).Draw(rt, "tag")
+		if c.Prefix != "" && rapid.IntRange(0, 5).Draw(rt, "tag-repeats-prefix") == 0 {
+			// a name that itself begins with the prefix is prefixed like any other
+			f.Tag = c.Prefix + "/" + f.Tag
+		}
 		raw := f.Kind == "bytes" || f.Kind == "string" || f.Kind == "secret" || f.Kind == "bin" || f.Kind == "binptr"
 		if used[f.Tag] != "" && isTagged(f.Kind) && !(raw && used[f.Tag] == "raw") {
 			f.Tag = fmt.Sprintf("%s-%d", f.Tag, i) // same secret for two fields only among the raw kinds (one value fits both)
@@ -676,7 +696,7 @@ func genStructCase(rt *rapid.T) StructCase {
 
 var c20 = &h.Campaign[StructCase]{
 	Prop: "C20", Sub: "structs",
-	Rule: "rapid: struct types built at run time with reflect.StructOf: 1-8 exported fields in random order from {[]byte, string, setec.Secret, value and pointer BinaryUnmarshaler, ',json' struct/map/int, untagged int/[]byte/string with sentinels, an embedded struct with two tagged fields and an untagged one, unsupported tagged int/float/chan, an empty tag name}, clean prefixes, random/empty/rejected/invalid-JSON secret bytes, JSON values followed by trailing data, text ending in line terminators, untagged nil pointers of an unmarshaler type; populated through NewStore(Structs) or ParseFields+Apply (then the same Fields applied to a second store that serves other bytes, and a fresh struct applied under an ended context on a store that lacks only the first secret); also non-pointer / non-struct arguments and structs without tags; populated []byte fields are overwritten and the store re-read; non-trivial = >= 3 tagged fields of >= 3 kinds plus an untagged one, or a rejected shape, or a failing field with the others filled; distinct by scenario",
+	Rule: "rapid: struct types built at run time with reflect.StructOf: 1-8 exported fields in random order from {[]byte, string, setec.Secret, value and pointer BinaryUnmarshaler, ',json' struct/map/int, untagged int/[]byte/string with sentinels, an embedded struct with two tagged fields and an untagged one, unsupported tagged int/float/chan, an empty tag name}, clean prefixes, random/empty/rejected/invalid-JSON secret bytes, JSON values followed by trailing data, text ending in line terminators, untagged nil pointers of an unmarshaler type; populated through NewStore(Structs) or ParseFields+Apply (then the same Fields applied to a second store that serves other bytes, and a fresh struct applied under an ended context on a store that lacks only the first secret); also non-pointer / non-struct arguments and structs without tags; populated []byte fields are overwritten and the store re-read; the embedded struct itself embeds structs with tagged fields two and three levels down, tag names that begin with the prefix; non-trivial = >= 3 tagged fields of >= 3 kinds plus an untagged one, or a rejected shape, or a failing field with the others filled; distinct by scenario",
 	Quick: 5000, Thorough: 5000000,
 	Gen:   genStructCase,
 	Run:   runC20,
